@@ -253,7 +253,99 @@ func bruteForceCheap(ws [][]byte) bool {
 	return pre*total <= 4000000
 }
 
+// bigWords regenerates the word list of an oracle-only case (o=1,s=<seed>,t=<states>): random
+// words of 6 or 7 bytes over all byte values, grown until the minimal automaton has t states, so
+// that thousands of distinct tails are registered, plus twins that share a fresh tail and lie at
+// the very beginning, in the middle and at the very end of the order (a state registered first
+// recurs last).  The list is too long for a case line; the case names its seed and size.
+func bigWords(seed uint64, t int) [][]byte {
+	r := hx.NewRng(seed*1000003 + uint64(t))
+	alpha := make([]byte, 256)
+	for i := range alpha {
+		alpha[i] = byte(i)
+	}
+	seen := map[string]bool{}
+	var ws [][]byte
+	for size := 0; size < t; {
+		for k := 0; k < 150; k++ {
+			w := randWordLen(r, alpha, 7-r.Intn(2))
+			if !seen[string(w)] {
+				seen[string(w)] = true
+				ws = append(ws, w)
+			}
+		}
+		ws = sortDedup(ws)
+		size, _ = minimalSizeTrie(ws)
+	}
+	for k := 0; k < 3; k++ {
+		tail := randWordLen(r, alpha, 5)
+		for _, hb := range []byte{0x00, 0x80, 0xff} {
+			ws = append(ws, cat([]byte{hb, byte(r.Intn(256))}, tail), cat([]byte{hb, hb, byte(r.Intn(256))}, tail))
+		}
+	}
+	return sortDedup(ws)
+}
+
+// execBig judges a big automaton by the Go-side oracles only: word list, NumberOfWords, ranks,
+// node count = Myhill-Nerode size (minimalSizeTrie) = nodes in the hook's dump.
+func execBig(seed uint64, t int) hx.Result {
+	ws := bigWords(seed, t)
+	var viol []hx.OracleViolation
+	cp := make([][]byte, len(ws))
+	for i, w := range ws {
+		cp[i] = append([]byte{}, w...)
+	}
+	d, err := dawg.New(cp)
+	if err != nil || d == nil {
+		return hx.Result{Obs: "oracle-only", Viol: []hx.OracleViolation{hx.Fail("C12:big-new-error", "New failed on %d increasing words: %v", len(ws), err)}}
+	}
+	mn, npre := minimalSizeTrie(ws)
+	nodes := d.VerifNodeCount()
+	if nodes != mn {
+		viol = append(viol, hx.Fail("C12:not-minimal", "node count %d, minimal automaton has %d states (%d words)", nodes, mn, len(ws)))
+	}
+	if n := len(d.VerifDump()); n != nodes {
+		viol = append(viol, hx.Fail("C12:node-count", "numberOfNodes %d but %d nodes reachable", nodes, n))
+	}
+	if d.NumberOfWords() != len(ws) {
+		viol = append(viol, hx.Fail("C12:big-number-of-words", "NumberOfWords %d for %d words", d.NumberOfWords(), len(ws)))
+	}
+	words, ids := d.Search()
+	ok := len(words) == len(ws)
+	for i := 0; ok && i < len(ws); i++ {
+		ok = bytes.Equal(words[i], ws[i]) && ids[i] == i
+	}
+	if !ok {
+		viol = append(viol, hx.Fail("C12:big-words", "the automaton does not list exactly the %d words with their ranks", len(ws)))
+	}
+	step := len(ws)/500 + 1
+	for i := 0; i < len(ws); i += step {
+		if r, found := d.Lookup(ws[i]); !found || r != i {
+			viol = append(viol, hx.Fail("C12:lookup", "Lookup(%x) = (%d,%v), expected (%d,true)", ws[i], r, found, i))
+			break
+		}
+		x := append([]byte{}, ws[i]...)
+		x[len(x)-1] ^= 0x01
+		j := sort.Search(len(ws), func(k int) bool { return bytes.Compare(ws[k], x) >= 0 })
+		member := j < len(ws) && bytes.Equal(ws[j], x)
+		if r, found := d.Lookup(x); found != member || (found && r != j) {
+			viol = append(viol, hx.Fail("C12:lookup", "Lookup(%x) = (%d,%v), expected (%d,%v)", x, r, found, j, member))
+			break
+		}
+	}
+	return hx.Result{Obs: "oracle-only", Nontrivial: nodes < npre, Viol: viol,
+		Buckets: []string{fmt.Sprintf("words<=%d", bucket(len(ws))), fmt.Sprintf("nodes<=%d", bucket(nodes)), "oracle-only"}}
+}
+
 func exec(line string) hx.Result {
+	if strings.HasPrefix(line, "o=1,") {
+		var seed uint64
+		var t int
+		if _, err := fmt.Sscanf(line, "o=1,s=%d,t=%d;", &seed, &t); err != nil {
+			panic("bad oracle-only case: " + line)
+		}
+		return execBig(seed, t)
+	}
 	c := parse(line)
 	var viol []hx.OracleViolation
 	db := new(dawg.Builder)
@@ -921,6 +1013,17 @@ func gen(g *hx.Gen) {
 		emit(tcase{alpha: []byte("ab"), plen: 2, zero: r.Chance(1, 3), extra: extraProbes(r, ws, []byte{0, 'a', 'x', 0xff}), tokens: toks})
 	}
 	genRound3(g, emit)
+	// oracle-only: automata of 5000, 9000 (thorough: 17000) states (register across 4096, 8192, 16384 entries);
+	// the extracted minimal_size is quadratic, the model side prints a constant for these
+	for i := g.Pick(1, 4); i > 0; i-- {
+		sizes := []int{5000, 9000, 17000}
+		if !g.Thorough() {
+			sizes = sizes[:2] // the library's own register scan is quadratic: 17000 states cost 3.5 s
+		}
+		for _, t := range sizes {
+			g.Emit(fmt.Sprintf("o=1,s=%d,t=%d;", r.Intn(1000000), t+r.Intn(200)))
+		}
+	}
 }
 
 // ---------------------------------------------------------------- round 3: byte range, counters, depth, width
